@@ -193,3 +193,15 @@ Proof.
     assert (memz x o1 = false) as ->; [|reflexivity].
     apply memz_false. intros H. apply (filter_mem_sub _ _ H1) in H. now apply (Hd x H).
 Qed.
+
+Lemma subz_In l m : subz l m = true <-> forall x, In x l -> In x m.
+Proof.
+  unfold subz. rewrite forallb_forall. split; intros H x Hx; apply memz_In; auto.
+Qed.
+
+Lemma nodupb_NoDup l : nodupb l = true -> NoDup l.
+Proof.
+  induction l as [|x l IH]; cbn [nodupb]; [constructor|].
+  intros H. apply andb_true_iff in H. destruct H as [H1 H2]. constructor; auto.
+  now apply memz_false, negb_true_iff.
+Qed.
